@@ -15,7 +15,7 @@ QP   getCost is getDisplacement(..., update=false) and push is getDisplacement(.
 """
 from ..frontend import AnalysisBroken
 from ..model import qt, loc_str, walk, inner
-from ..expr import canon, pretty, children, strip, callee_info
+from ..expr import canon, pretty, children, strip, callee_info, subterms
 from ..cfg import cfg_of
 from .common import CQ, short, calls_to, loop_has_early_exit, expand_locals
 
@@ -52,9 +52,11 @@ def run(ctx, rep, tier):
     rep.rule("R6", "bounds popped during a query are saved and all pushed back", 2)
     rep.rule("TS", "final position selector is the exact complement of the descent condition on the slope", 1)
     rep.rule("BP", "bounds are pushed at positions >= begin_", 2)
+    rep.rule("LC", "the descent pops bounds beyond exactly the right limit the final position is clamped to", 1)
     rep.rule("BQ", "no bound is left right of the position committed for the inserted cell", 2)
     rep.rule("DS", "derived state of RowLegalizer is reset by every writer of its inputs", 1)
     rep.rule("CR", "clear() gives every changing scalar member the value the constructor gives it", 1)
+    rep.rule("PA", "getCost and push hand the same arguments to getDisplacement", 1)
     rep.rule("QP", "getCost queries (update=false), push commits (update=true), clear resets everything", 3)
     f = prog.func1(CQ + "RowLegalizer::getDisplacement")
     g = cfg_of(f)
@@ -164,6 +166,33 @@ def run(ctx, rep, tier):
         else:
             rep.violation("QP", h.decl, h, "%s does not call getDisplacement(..., %s)" % (q, str(lit).lower()),
                           "a cost query must not commit, a push must", key="%s|wrong update flag" % h.short)
+    # ---- PA: prediction and commit hand the same arguments to the shared evaluation ----
+    forms = {}
+    for q in ("RowLegalizer::getCost", "RowLegalizer::push"):
+        h = prog.func1(CQ + q)
+        cs = calls_to(h, CQ + "RowLegalizer::getDisplacement")
+        if len(cs) != 1:
+            continue
+        ren = {p_.get("id"): ("param", k) for k, p_ in enumerate(h.params)}
+
+        def norm(c_):
+            if isinstance(c_, tuple):
+                if c_ and c_[0] == "var" and c_[1] in ren:
+                    return ren[c_[1]]
+                return tuple(norm(t) for t in c_)
+            return c_
+        forms[q] = (cs[0], h, [norm(expand_locals(ctx, h, canon(a_))) for a_ in callee_info(cs[0])["args"][:2]])
+    if len(forms) == 2:
+        (x1, h1, a1), (x2, h2, a2) = forms["RowLegalizer::getCost"], forms["RowLegalizer::push"]
+        if a1 == a2:
+            rep.holds("PA", x1, h1, "getCost and push evaluate getDisplacement on the same (width, target) expressions of their parameters")
+        else:
+            rep.violation("PA", x1, h1, "getCost evaluates getDisplacement(%s), push evaluates getDisplacement(%s)" %
+                          (", ".join(pretty(t)[:30] for t in a1), ", ".join(pretty(t)[:30] for t in a2)),
+                          "prediction and commit of one insertion are the same evaluation of the same arguments; a transformation (an offset, a clamp) applied in "
+                          "only one of them makes the predicted cost differ from the reported one", key="RowLegalizer::getCost|prediction and commit on different arguments")
+    else:
+        rep.unknown("PA", None, None, "getCost / push", "one call of getDisplacement in each was expected (shape changed)")
     c = prog.func1(CQ + "RowLegalizer::clear")
     sc = eff.summary(c)
     w = {x.split("::")[-1] for x in sc["writes"] if x.startswith(CQ + "RowLegalizer::")}
@@ -183,6 +212,7 @@ def run(ctx, rep, tier):
 
     check_tie_selector(ctx, rep, f)
     check_bound_positions(ctx, rep, f)
+    check_limit_consistency(ctx, rep, f)
     from .common import check_derived_state
     scope = {h.short for h in prog.funcs.values() if h.cls == CQ + "RowLegalizer" and h.kind == "CXXMethodDecl" and h.is_const}
     n0 = len([i for i in rep.instances if i["rule"] == "DS"])
@@ -365,15 +395,18 @@ def check_bound_positions(ctx, rep, f):
         if not ci or ci["name"] not in ("push", "emplace") or ci["obj"] is None or canon(ci["obj"]) != ("field", bq, ("this",)):
             continue
         a = canon(ci["args"][0]) if ci["args"] else None
-        if a is None or a[0] != "construct" or len(a) < 4:
+        if ci["name"] == "emplace" and len(ci["args"]) >= 2:
+            posn = canon(ci["args"][1])        # bounds.emplace(weight, position): the Bound is built in place
+        elif a is None or a[0] != "construct" or len(a) < 4:
             continue      # re-push of a saved bound (a variable): its position was checked when it was first pushed
-        posn = a[-1] if len(a) == 4 else a[3]
+        else:
+            posn = a[-1] if len(a) == 4 else a[3]
         n += 1
         site = g.node_for(x)
         F = Facts()
-        for ast, val, en in g.dom_edges(site, asserts=True):
+        for gc_, val, _ast, _asr in (ctx.guards(f, x, asserts=True, derived=True) or []):
             if isinstance(val, bool):
-                F.add_cond(canon(ast), val)
+                F.add_cond(gc_, val)
         P = Prover(F, orthant=False)
         what = "bound pushed at %s" % pretty(posn)[:70]
         if P.prove_ge(posn, begin):
@@ -409,9 +442,12 @@ def check_bound_positions(ctx, rep, f):
         if not ci or ci["name"] not in ("push", "emplace") or ci["obj"] is None or canon(ci["obj"]) != ("field", bq, ("this",)):
             continue
         a = canon(ci["args"][0]) if ci["args"] else None
-        if a is None or a[0] != "construct" or len(a) < 4:
+        if ci["name"] == "emplace" and len(ci["args"]) >= 2:
+            posn = canon(ci["args"][1])
+        elif a is None or a[0] != "construct" or len(a) < 4:
             continue
-        posn = a[-1] if len(a) == 4 else a[3]
+        else:
+            posn = a[-1] if len(a) == 4 else a[3]
         site = g.node_for(x)
         F = Facts()
         for ast, val, en in g.dom_edges(site, asserts=True):
@@ -435,3 +471,62 @@ def check_bound_positions(ctx, rep, f):
             rep.unknown("BQ", x, f, what, "neither provable nor refutable from the dominating guards")
     if n == 0:
         rep.unknown("BP", f.decl, f, "bound pushes", "no push of a newly constructed Bound found (shape changed)")
+
+
+def check_limit_consistency(ctx, rep, f):
+    """LC. getDisplacement uses the right limit of the inserted cell twice: the descent loop pops every bound beyond it ("the position
+    is not legal yet") and the final position is clamped to it (the first operand of the std::min that defines the committed position).
+    Both must be the same quantity (compared as polynomials after inlining the class's trivial getters): a descent that stops at
+    another limit pops too many bounds (the placement is no longer optimal) or too few (a bound beyond the clamp survives and the costs
+    drift)."""
+    from ..order import Facts, Prover
+    from .common import inline_getters, expand_locals
+    loops = [x for x in walk(f.body) if x.get("kind") == "WhileStmt"]
+    cp = ("field", CQ + "RowLegalizer::constrainingPos_", ("this",))
+    commits = [canon(callee_info(y)["args"][0]) for y in walk(f.body) if y.get("kind") == "CXXMemberCallExpr" and callee_info(y)["name"] in ("push_back", "emplace_back")
+               and callee_info(y)["obj"] is not None and canon(callee_info(y)["obj"]) == cp and callee_info(y)["args"]]
+    if len(loops) != 1 or len(commits) != 1:
+        rep.unknown("LC", f.decl, f, "descent loop / committed position", "expected one while loop and one append to constrainingPos_")
+        return
+    final = expand_locals(ctx, f, commits[0])
+    if not (final[0] == "call" and final[1] == "min" and len(final) == 5):
+        rep.unknown("LC", f.decl, f, "committed position", "not of the form std::min(limit, ...) (shape changed)")
+        return
+    clamp = [t for t in final[3:] if not (t[0] == "call" and t[1] in ("max", "min"))]
+    if len(clamp) != 1:
+        rep.unknown("LC", f.decl, f, "committed position", "clamp limit not identified in %s" % pretty(final)[:60])
+        return
+    cond = canon([c for c in inner(loops[0]) if isinstance(c, dict) and c.get("kind")][0])
+    atoms = []
+
+    def flat(t):
+        if t[0] == "bin" and t[1] in ("&&", "||"):
+            flat(t[2]); flat(t[3])
+        elif t[0] == "un" and t[1] == "!":
+            flat(t[2])
+        else:
+            atoms.append(t)
+    flat(cond)
+    lims = []
+    for a in atoms:
+        if a[0] == "bin" and a[1] in (">", ">=", "<", "<="):
+            l, r = (a[2], a[3]) if a[1] in (">", ">=") else (a[3], a[2])
+            if any(isinstance(t, tuple) and t and t[0] == "field" and str(t[1]).endswith("absolutePos") for t in subterms(l)):
+                lims.append(expand_locals(ctx, f, r))
+    P = Prover(Facts(), orthant=False)
+    want = P.poly(inline_getters(ctx, clamp[0]))
+    got = [(l, P.poly(inline_getters(ctx, l))) for l in lims]
+    what = "descent limit(s) %s, clamp limit %s" % ([pretty(l)[:40] for l in lims], pretty(clamp[0])[:40])
+    if want is None or not got:
+        rep.unknown("LC", loops[0], f, what, "limits not recognised")
+    elif any(p_ == want for _l, p_ in got):
+        rep.holds("LC", loops[0], f, what, "the loop pops the bounds beyond the limit the position is clamped to")
+    else:
+        # the limit-like test is the one that mentions the width of the inserted cell
+        wp = {p_.get("id") for p_ in f.params[:1]}
+        cand = [l for l, p_ in got if any(isinstance(t, tuple) and t and t[0] == "var" and t[1] in wp for t in subterms(l))]
+        if cand:
+            rep.violation("LC", loops[0], f, what, "the legality test of the descent (%s) is not the limit the final position is clamped to: they agree only "
+                          "for particular segments (e.g. begin_ == 0)" % pretty(cand[0])[:50], key="RowLegalizer::getDisplacement|descent limit differs from the clamp")
+        else:
+            rep.unknown("LC", loops[0], f, what, "no descent test on the right limit found")
